@@ -523,6 +523,10 @@ func main() {
 			}
 		}
 	})
+	if *childFlag == "wrapdemo" {
+		fmt.Printf("@@C19W\t%s\n", wrapDemo())
+		return
+	}
 	if *childFlag != "" {
 		a := strings.Fields(*childFlag)
 		n, _ := strconv.Atoi(a[0])
@@ -542,6 +546,7 @@ func main() {
 		panic(err)
 	}
 	scs := generate(r, r.Rand())
+	runWrapDemo(r, exe)
 	workers := runtime.NumCPU() / 2
 	if workers < 2 {
 		workers = 2
